@@ -38,6 +38,18 @@ type behaviour struct {
 
 var ids = map[string]int{"A": 1, "B": 2, "C": 3, "D": 4}
 
+// moreRefs makes the instance evaluate ref.func many more times (the results are dropped): a reference handed out earlier
+// must stay valid however many references its owner creates afterwards. No effect on the model's state.
+func moreRefs(w *world, i string) {
+	if m := w.mods[i]; m != nil {
+		if f := m.ExportedFunction("getref"); f != nil {
+			for k := 0; k < 96; k++ {
+				_, _ = f.Call(w.ctx)
+			}
+		}
+	}
+}
+
 func shapeOf(i string) ug.Shape {
 	switch i {
 	case "A":
@@ -170,6 +182,7 @@ func runOne(id int, raw json.RawMessage) common.Result {
 			if _, err := w.mods[a.I].ExportedFunction("tset").Call(w.ctx, uint64(a.S), 1); err != nil {
 				return 0, "error:" + err.Error()
 			}
+			moreRefs(w, a.I)
 		case "pset":
 			ref, err := w.mods[a.J].ExportedFunction("getref").Call(w.ctx)
 			if err != nil {
@@ -178,6 +191,7 @@ func runOne(id int, raw json.RawMessage) common.Result {
 			if _, err := w.mods[a.I].ExportedFunction("pset").Call(w.ctx, uint64(a.S), ref[0]); err != nil {
 				return 0, "error:" + err.Error()
 			}
+			moreRefs(w, a.J)
 		case "close":
 			if destructive {
 				_ = w.mods[a.I].Close(w.ctx)
